@@ -173,6 +173,28 @@ CLAIMS = {
          "and lower-casing in encode_ty/ref_struct_name; instance names vs user names). Behavioural rename-invariance is checked syntactically "
          "(alpha-shape of the Go file), not under a Go semantics. Trusted: Lean kernel, extract.py, goscope.rs scope rules, generator templates.",
     technique="Lean 4 proof (all strings / all types) + translator-regenerated tables + exhaustive encoder diff + scope oracle on real output"),
+ "C01": dict(
+    category="translation_validation",
+    text="Per-program translation validation against formal semantics written in Lean: Sem (source-level meaning of the unified IR: "
+         "call-by-value, left-to-right, first-match, short-circuit, wrapping fixed-width integers, Ref store, traces) and Go.Sem (the "
+         "emitted Go subset). For every accepted corpus and generated program the REAL Core, Mono, Lift and ANF dumps are run under Sem "
+         "and the REAL Go AST under Go.Sem; stdout and the way the run ends must agree stage by stage (the first divergent stage names "
+         "the guilty pass) and with the outputs recorded from real Go. The pass-level preservation theorems live under C06-C10; this check "
+         "is the glue between them and the code.",
+    design_ref="§5 C01",
+    note="Trusted: Sem/Go.Sem as definitions (Go.Sem reproduces all recorded corpus outputs), harness IR serialisers, the generator's coverage. "
+         "Not covered: go_pprint.rs (AST is dumped before printing), real goroutine interleavings, Go's float formatting.",
+    technique="translation validation with Lean-defined executable semantics (Sem vs Go.Sem) on real stage dumps"),
+ "C02": dict(
+    category="translation_validation",
+    text="Go.Check, a Lean checker for the rules go build/go vet enforce on the emitted subset (declared once and before use, typed "
+         "assignment/call/return/composite literal, interface satisfaction, unused locals and imports, terminating statements, legal "
+         "identifiers), applied to the REAL Go AST of every accepted corpus and generated program. goIdent_legal (C19) proves identifier "
+         "legality for all strings. Known findings: closures in func-typed positions, missing() at a non-unit type.",
+    design_ref="§5 C02",
+    note="Trusted: Go.Check as our reading of the Go spec (accepts the 73 corpus programs real Go accepted, rejects 058 as real Go did); "
+         "goast dump; go_pprint.rs not covered.",
+    technique="translation validation with a Lean-defined Go type/scope checker on the real Go AST"),
 }
 
 NOT_YET = "not claimed yet: the model/theorems/tie for this property are still being built (see DESIGN.md §5)"
